@@ -167,8 +167,10 @@ func parseNumWorkers(n vals.Num) (int, bool, error) {
 			return n, true, nil
 		}
 	case *big.Int:
-		// A limit larger than MaxInt is equivalent to no limit.
-		return 0, false, nil
+		if n.Sign() > 0 {
+			// A limit larger than MaxInt is equivalent to no limit.
+			return 0, false, nil
+		}
 	case float64:
 		if math.IsInf(n, 1) {
 			return 0, false, nil
